@@ -140,6 +140,28 @@ def rule_pipeline_props(chk):
                 return
             if isinstance(r, I.Enum) and r.variant == "Ok":
                 n_ok += 1
+    # two pipelines of one name (declared at different places): the second is refused - Module::select_pipeline asserts that
+    # a name selects one pipeline, so an accepted duplicate aborts compile() afterwards
+    at = lambda s_, n_: I.Enum("Located", None, {"node": s_, "location": I.Enum("SourceLocation", None, {"0": n_})})
+    dup = {}
+    for earlier, want_err in (("P", True), ("Q", False)):
+        prev = I.Enum("PipelineDefinition", None, {"name": at(earlier, 10), "stages": [], "default_bind_group_index": 0, "graphics_pipeline_state": I.Enum("Option", "None")})
+        d = I.Enum("PipelineDefinition", None, {"name": at("P", 200), "properties": [prop("ComputeShader")]})
+        ctx = I.Enum("Context", None, {"module": I.Enum("Module", None, {"pipelines": [prev]})})
+        ip = I.Interp(f, max_depth=8, extern=ext)
+        ip.max_loop = 64
+        try:
+            r = ip.apply(pp, [d, ctx])
+            dup[earlier] = r.variant if isinstance(r, I.Enum) else repr(r)
+        except I.Unknown as e:
+            dup[earlier] = ("aborts" if "panicking" in str(e) else "unreadable", str(e)[:80])
+    if any(isinstance(v, tuple) and v[0] == "unreadable" for v in dup.values()):
+        chk.note("C08.pipeline/duplicate-name: parse_pipeline is not readable on a module that already has a pipeline (%s); not decided" % (dup,))
+    else:
+        okd = dup.get("P") == "Err" and dup.get("Q") == "Ok"
+        chk.ob("C08.pipeline/duplicate-name", okd, "a second pipeline of the same name is refused, one of another name accepted" if okd else
+               "a pipeline named P declared after another pipeline named %s: %s (a second P must be refused with a diagnostic - select_pipeline asserts that a name selects one pipeline - and a pipeline of another name accepted)"
+               % ("P" if dup.get("P") != "Err" else "Q", dup.get("P") if dup.get("P") != "Err" else dup.get("Q")), where(pp))
     # an entry point that is declared but never defined (`void cs(); Pipeline P { ComputeShader = cs; }`)
     import c05
     res = c05.stage_declared_only(f)
